@@ -909,3 +909,47 @@ Definition f_join (joiner : list Z) (v : value) : outcome value :=
     | Some s => Ok (VStr false s)
     | None => OutOfGas
     end).
+
+(* ------------------------------------------------------------------------------------ *)
+(* containment: ops.rs::contains (the `in` / `not in` operators, the `in` test)         *)
+(* ------------------------------------------------------------------------------------ *)
+Fixpoint is_prefix (t s : list Z) : bool :=
+  match t, s with
+  | [], _ => true
+  | x :: t', y :: s' => (x =? y) && is_prefix t' s'
+  | _ :: _, [] => false
+  end.
+(* str::contains *)
+Fixpoint is_infix (t s : list Z) : bool :=
+  is_prefix t s || match s with [] => false | _ :: s' => is_infix t s' end.
+
+(* Value::as_str: strings, and bytes that are well-formed UTF-8.  Modelled for byte strings
+   that are pure ASCII (well-formed, decode to themselves); other byte strings of the pools
+   contain 0xFF and are never well-formed. *)
+Definition as_str_of (v : value) : option (list Z) :=
+  match v with
+  | VStr _ s => Some s
+  | VBytes bs => if forallb (fun b => b <? 128) bs then Some bs else None
+  | _ => None
+  end.
+
+(* a needle that is not a string is searched by its rendering (modelled for integers) *)
+Definition contains_o (o : map_order) (c v : value) : outcome bool :=
+  match c with
+  | VUndef => Ok false
+  | _ =>
+      match as_str_of c with
+      | Some s =>
+          match as_str_of v with
+          | Some t => Ok (is_infix t s)
+          | None => match v with VInt _ z => Ok (is_infix (decimal z) s) | _ => OutOfGas end
+          end
+      | None =>
+          match c with
+          | VPlain _ => Ok false
+          | VMap kvs => Ok (match map_get_o o v kvs with Some _ => true | None => false end)
+          | VSeq xs | VTuple xs | VIter _ xs => Ok (existsb (fun e => veq_o o e v) xs)     (* any(|e| &e == value) *)
+          | _ => Err E_InvalidOperation
+          end
+      end
+  end.
